@@ -1,5 +1,8 @@
 NOTE = "trusted: CPython, spacepackets 0.26.1 PDU classes, the harness (xmc engine, reference models); every explored path is an execution of the real cfdppy code from /repo's working tree; root-replay validation re-executes sampled paths without snapshots"
 CLAIMED = {
+ "C01": ("explicit-state BFS over the real SourceHandler+DestHandler on a chaos link (set of ever-sent PDUs: unbounded loss/duplication/reordering/delay, payload bit flips, write rejections, free time) and on a K-fault FIFO link; safety oracle inside every Transaction-Finished indication / at every Finished PDU",
+         "complete reachable graph per configuration (unacknowledged: sizes 0..2L x closure x CRC-32/CRC-32C x check limit; acknowledged: limits 1, both NAK modes; null/modular without corruption; K<=2 quick / 3 thorough counted faults incl. flips and rejections): wherever success is reported the destination file is read at that moment and must equal the source byte for byte",
+         NOTE, "DESIGN.md 4 C01"),
  "C02": ("explicit-state BFS over the real SourceHandler+DestHandler on a fault-free FIFO link: all interleavings of state-machine calls and deliveries, terminal-state classification + cycle search, per configuration",
          "complete reachable graph of the two real handlers for every configuration of a stated product (modes, closure, NAK mode, checksum types, CRC flag, id/sequence widths, segment lengths incl. derived, sizes 0..3L+1, destination shapes, metadata-only); every terminal state must be a successful completion, no exception, no fault callback, no cycle",
          NOTE, "DESIGN.md 4 C02"),
